@@ -6,6 +6,14 @@ use crate::ast::*;
 use crate::rng::Rng;
 use crate::spec::{self, PType};
 
+/// Small-workload switch for the Miri leg (interpretation is ~1000x slower than native code):
+/// field lengths <= 16 bytes, <= 2 user properties, no frame-size targeting.
+pub static TINY: std::sync::atomic::AtomicBool = std::sync::atomic::AtomicBool::new(false);
+
+pub fn tiny() -> bool {
+    TINY.load(std::sync::atomic::Ordering::Relaxed)
+}
+
 #[derive(Clone, Debug)]
 pub struct Swarm {
     pub fam: Fam,
@@ -20,6 +28,17 @@ pub struct Swarm {
     pub big_permil: u64,
     /// allow frame-size targeting up to this remaining length
     pub max_frame: usize,
+}
+
+impl Swarm {
+    fn shrink_if_tiny(mut self) -> Swarm {
+        if tiny() {
+            self.max_user_props = self.max_user_props.min(2);
+            self.big_permil = 0;
+            self.max_frame = 0;
+        }
+        self
+    }
 }
 
 pub fn all_types(fam: Fam) -> Vec<u8> {
@@ -61,8 +80,9 @@ pub fn swarm_for(rng: &mut Rng, fam: Fam, thorough: bool) -> Swarm {
         opt_p: *rng.pick(&[0u64, 4, 10, 10, 20]),
         max_user_props: if thorough { *rng.pick(&[0usize, 2, 6, 64]) } else { *rng.pick(&[0usize, 1, 3, 6]) },
         big_permil: *rng.pick(&[0u64, 0, 5, 20, 60]),
-        max_frame: if thorough { 2_097_152 + 16 } else { 16_384 + 16 },
+        max_frame: 2_097_152 + 16,
     }
+    .shrink_if_tiny()
 }
 
 const BOUNDARY_CP: [u32; 9] = [0x7F, 0x80, 0x7FF, 0x800, 0xFFFF, 0x10000, 0x10FFFF, 0xD7FF, 0xE000];
@@ -101,6 +121,9 @@ pub fn gen_len(rng: &mut Rng, sw: &Swarm, max: usize) -> usize {
             _ => rng.urange(2, 12),
         }
     };
+    if tiny() {
+        return n.min(16).min(max);
+    }
     n.min(max)
 }
 
@@ -506,4 +529,113 @@ pub fn retarget(rng: &mut Rng, a: &mut Ast, cur: usize, target: usize) -> bool {
         }
         _ => false,
     }
+}
+
+
+/// Encoded size of one property (identifier + value).
+pub fn prop_size(id: u8, v: &PVal) -> usize {
+    let _ = id;
+    1 + match v {
+        PVal::Byte(_) => 1,
+        PVal::U16(_) => 2,
+        PVal::U32(_) => 4,
+        PVal::Var(x) => spec::varint_len(*x),
+        PVal::Str(b) | PVal::Bin(b) => 2 + b.len(),
+        PVal::Pair(k, x) => 4 + k.len() + x.len(),
+    }
+}
+
+/// Property-block sizes that straddle the width boundaries of the property-length field.
+pub const PROP_TARGETS: [usize; 6] = [127, 128, 129, 16_383, 16_384, 16_385];
+
+/// Add one user property so that the property block is exactly `target` bytes, if reachable.
+pub fn retarget_props(p: &mut Props, target: usize) -> bool {
+    let cur: usize = p.iter().map(|(id, v)| prop_size(*id, v)).sum();
+    if target < cur + 5 {
+        return false;
+    }
+    let fill = target - cur - 5;
+    let (k, v) = if fill <= 65_535 { (0, fill) } else { (fill - 65_535, 65_535) };
+    if k > 65_535 {
+        return false;
+    }
+    p.push((0x26, PVal::Pair(Bs(vec![b'K'; k]), Bs(vec![b'V'; v]))));
+    canon_props(p);
+    true
+}
+
+/// With probability 1/`one_in`, pad a v5 packet's property block (or its will's) to a boundary.
+pub fn maybe_retarget_props(rng: &mut Rng, fam: Fam, a: &mut Ast, one_in: u64) {
+    if tiny() {
+        return;
+    }
+    if !fam.is_v5() || !rng.chance(1, one_in) {
+        return;
+    }
+    let t = *rng.pick(&PROP_TARGETS);
+    if let Ast::Connect(c) = a {
+        if let Some(w) = c.will.as_mut() {
+            if rng.bool() {
+                retarget_props(&mut w.props, t);
+                return;
+            }
+        }
+    }
+    if let Some(p) = a.props_mut() {
+        retarget_props(p, t);
+    }
+}
+
+/// Move the boundary between two adjacent length-prefixed strings into the middle of a
+/// multi-byte code point: both halves become invalid UTF-8 although their concatenation is
+/// valid. Returns false if the packet has no suitable pair.
+pub fn split_codepoint(a: &mut Ast) -> bool {
+    fn split(k: &mut Bs, v: &mut Bs) -> bool {
+        let Some(s) = k.as_str() else { return false };
+        let Some(last) = s.chars().last() else { return false };
+        let w = last.len_utf8();
+        if w < 2 {
+            return false;
+        }
+        let cut = k.len() - (w - 1); // keep the lead byte in k, move the continuation bytes
+        let moved: Vec<u8> = k.0[cut..].to_vec();
+        k.0.truncate(cut);
+        let mut nv = moved;
+        nv.extend_from_slice(&v.0);
+        if nv.len() > 65_535 {
+            return false;
+        }
+        v.0 = nv;
+        true
+    }
+    if let Some(p) = a.props_mut() {
+        for (id, v) in p.iter_mut() {
+            if *id == 0x26 {
+                if let PVal::Pair(k, x) = v {
+                    if split(k, x) {
+                        return true;
+                    }
+                }
+            }
+        }
+    }
+    if let Ast::Connect(c) = a {
+        if let (Some(u), Some(pw)) = (c.username.as_mut(), c.password.as_mut()) {
+            if split(u, pw) {
+                return true;
+            }
+        }
+        if let Some(w) = c.will.as_mut() {
+            for (id, v) in w.props.iter_mut() {
+                if *id == 0x26 {
+                    if let PVal::Pair(k, x) = v {
+                        if split(k, x) {
+                            return true;
+                        }
+                    }
+                }
+            }
+        }
+    }
+    false
 }
